@@ -73,3 +73,17 @@ Section Compile.
     - destruct p; [congruence|discriminate].
   Qed.
 End Compile.
+
+(* (2) joined to (1), for THIS source: every path of every exported method of bloom.Filter that touches anything --
+   MatchTxAndUpdate and MsgFilterLoad included -- denotes a well-locked body of the interleaving semantics, whatever
+   meaning [sem] gives to its field accesses and worker calls; so well_locked_linearizable applies to any program
+   made of calls of these methods *)
+Theorem bloom_source_bodies_well_locked (S L : Type) (sem : event -> L -> S -> L * S) m p :
+  In m bloom_methods -> m_exported m = true -> In p (m_paths m) -> p <> [Return] ->
+  well_locked_body S L (compile S L sem p).
+Proof.
+  intros Hm He Hp Hne.
+  pose proof bloom_methods_well_locked as H. rewrite forallb_forall in H. specialize (H m Hm).
+  unfold well_locked_in in H. rewrite He in H. apply andb_true_iff in H as [H _].
+  rewrite forallb_forall in H. apply (accepted_path_is_well_locked S L sem bloom_methods p (H p Hp) Hne).
+Qed.
